@@ -166,7 +166,7 @@ theorem cl_exec (a : Api) (c : Call) (hp : P a.s) : P (a.exec c).1.s := by
   | adv d => exact cl_tick hc a.s d hp
   | expire d h0 =>
     simp only [Api.exec]
-    have := hc a.s (.expire d (List.range' h0 supplyLen)) hp
+    have := hc a.s (.expire (cutoffOf a.s d) (List.range' h0 supplyLen)) hp
     split <;> exact this
   | lockAll sid h0 =>
     simp only [Api.exec]
